@@ -676,6 +676,8 @@ PROGRAMS = {
     "jcc-two-labels": [tok("label", "top"), tok("label", "again"), tok("o"), tok("jcc", "top"), tok("jcc", "again"), tok("ret")],
     "two-labels-data": [tok("o"), tok("ret"), tok("label", "a"), tok("label", "b"), tok("byte"), tok("byte")],
     "two-labels-end": [tok("o"), tok("ret"), tok("label", "a"), tok("label", "b")],
+    # an empty string literal emits no bytes and must leave no trace
+    "empty-ascii": [tok("o"), tok("raw", '.ascii ""'), tok("o2"), tok("ret"), tok("raw", '.ascii ""'), tok("byte")],
     "arm-reloc": [tok("lo12", "obj"), tok("o"), tok("lo12add", "obj"), tok("lea", "obj"), tok("lo12add", "ext"), tok("lo12", "ext"), tok("ret")],
 }
 
